@@ -116,11 +116,12 @@ C5(p) == /\ UNCHANGED late
          /\ UNCHANGED <<first, gate, pending, seq, active, myInst, left, cur, wire>>
 C6(p) == /\ UNCHANGED late
          /\ pc[p] = "c6"
-         /\ \E n \in 1..MaxChunks : left' = [left EXCEPT ![p] = n]
+         /\ \E n \in 1..MaxChunks : /\ left' = [left EXCEPT ![p] = n]
+                                   /\ hist' = IF Gen THEN Append(hist, [p |-> p, to |-> "chunk.write", n |-> n]) ELSE hist
          /\ seq' = [seq EXCEPT ![myInst[p]] = NextSeq(@)]
          /\ cur' = [cur EXCEPT ![p] = NextSeq(seq[myInst[p]])]
          /\ first' = [first EXCEPT ![p] = seq[myInst[p]]]
-         /\ Goto(p, "c8") /\ Rec(p, "chunk.write")
+         /\ Goto(p, "c8")
          /\ UNCHANGED <<gate, pending, instLock, active, myInst, wire>>
 C8(p) == /\ UNCHANGED late
          /\ pc[p] = "c8" /\ left[p] > 0
@@ -216,6 +217,12 @@ InvFreshInst  == \A p \in Senders : pc[p] \in {"c5", "c6", "c8"} => (myInst[p] =
 
 \* a request issued during a renewal is sent with the token the renewal installed
 InvLateOnNew  == \A i \in 1..Len(wire) : (wire[i].who \in late /\ active = 2 /\ pc[R] = "done") => wire[i].inst = 2
+
+\* state constraint of the pinned generation: the senders run one after the other (in the order of
+\* their names), the renewal last -- every way a message can end (whole, failed before its first chunk,
+\* aborted after k chunks) followed by a further message on the same instance, seed-independent
+Pinned == /\ pc["p2"] # "c0" => pc["p1"] = "done"
+          /\ pc[R] # "r1" => \A p \in Senders : pc[p] = "done"
 
 Terminal == \A p \in Procs : pc[p] = "done"
 Beh == [sched |-> hist, wire |-> wire, seq0 |-> Seq0, late |-> late,
